@@ -18,7 +18,7 @@ EXPLANATION = (
     "saturation value of that same compartment (index agreement through temporaries). C19.d: every read of the adjusted field capacity (and of any other daily-updated state field of which "
     "initialisation leaves a snapshot in the static profile) below the step goes through the state, never through the snapshot. C19.e: the daily water-table series is interpolated on the observations' own dates "
     "(time-weighted, never by position), no label store can append an entry for a date outside the period, and what is handed to the model is "
-    "restricted to the simulation days; the date masks of the held-constant method include the observation's own date (the rule carries its own positive example, the pre-fix code, and fails closed if it stops matching it). C19.f (sibling agreement): the adjusted field capacity is computed by two implementations (initialisation, daily); after renaming they have the same tests and the same defining expressions. NOT decided: range "
+    "restricted to the simulation days; the date masks of the held-constant method include the observation's own date (the rule carries its own positive example, the pre-fix code, and fails closed if it stops matching it). C19.f (sibling agreement): the adjusted field capacity is computed by two implementations (initialisation, daily); after renaming they have the same tests and the same defining expressions; the 'table inside the profile' flag is computed by the same test (depth >= 0) wherever it is computed. C19.e also requires that a loop which applies the observations one after the other is preceded, on every path, by a sort on the date, and that a forward fill of the observations over the simulation days is completed backwards (days before the first observation take its depth). NOT decided: range "
     "of adjusted field capacity, capillary-rise limit, interpolation of observations, equivalence of a very deep table "
     "with none (numeric).")
 
